@@ -96,6 +96,8 @@ type Program struct {
 	RenameNotes []string
 	storeCache map[*ssa.Function]map[string]bool
 	nnFields   map[string]map[*ssa.Function]bool
+	nnFieldVars map[*types.Var]map[*ssa.Function]bool
+	nnPass      int
 }
 
 func loadProgram(repo, goarch string) (*Program, error) {
